@@ -4,6 +4,7 @@
 //!   pre: new <c> <spec> , …  |  <thread> | <thread> | <thread> ;; <schedule digits>
 //!   thread: [@<c>] op , op , …      (@c = the thread's default collector for its whole life)
 //!   ops: hit <cs> | new <c> <spec> | drop <c> | rebuild | mut <c> <spec>
+//!        | newr <c> <spec> (a collector whose filter is a REAL reload::Subscriber layer) | rl <c> <spec> (the real `Handle::reload`)
 //!   spec: 30 chars over a (always) n (never) t (sometimes, enabled) f (sometimes, disabled) + `h<k|->`
 //! Output: `<status> ;; <event log> ;; <quiescent observations>`
 use std::collections::HashMap;
@@ -43,6 +44,52 @@ impl Collect for Rec {
     fn enter(&self, _: &span::Id) {}
     fn exit(&self, _: &span::Id) {}
     fn current_span(&self) -> span::Current { span::Current::unknown() }
+}
+
+/// `newr`: the answers come from a layer behind a real `reload::Subscriber`; the collector underneath accepts everything
+struct Base { id: usize }
+struct SpecLayer(Vec<u8>, Option<LevelFilter>);
+type RHandle = tracing_subscriber::reload::Handle<SpecLayer>;
+static RHANDLES: Mutex<Option<HashMap<usize, RHandle>>> = Mutex::new(None);
+impl Base {
+    fn accepts(&self, i: usize) -> bool {
+        let h = RHANDLES.lock().unwrap().as_ref().and_then(|m| m.get(&self.id).cloned());
+        h.and_then(|h| h.with_current(|l| matches!(l.0[i], b'a' | b't')).ok()).unwrap_or(true)
+    }
+}
+impl Collect for Base {
+    fn register_callsite(&self, _: &'static Metadata<'static>) -> Interest { Interest::always() }
+    fn enabled(&self, _: &Metadata<'_>) -> bool { true }
+    fn new_span(&self, a: &span::Attributes<'_>) -> span::Id {
+        let i = pool::cs_index(a.metadata());
+        if !self.accepts(i) { WRONG.lock().unwrap().push(format!("{}:{}", self.id, i)); }
+        LOG.lock().unwrap().push(self.id);
+        span::Id::from_u64(1)
+    }
+    fn record(&self, _: &span::Id, _: &span::Record<'_>) {}
+    fn record_follows_from(&self, _: &span::Id, _: &span::Id) {}
+    fn event(&self, e: &Event<'_>) {
+        let i = pool::cs_index(e.metadata());
+        if !self.accepts(i) { WRONG.lock().unwrap().push(format!("{}:{}", self.id, i)); }
+        LOG.lock().unwrap().push(self.id);
+    }
+    fn enter(&self, _: &span::Id) {}
+    fn exit(&self, _: &span::Id) {}
+    fn current_span(&self) -> span::Current { span::Current::unknown() }
+}
+impl<C: Collect> tracing_subscriber::Subscribe<C> for SpecLayer {
+    fn register_callsite(&self, meta: &'static Metadata<'static>) -> Interest {
+        match self.0[pool::cs_index(meta)] { b'a' => Interest::always(), b'n' => Interest::never(), _ => Interest::sometimes() }
+    }
+    fn enabled(&self, meta: &Metadata<'_>, _: tracing_subscriber::subscribe::Context<'_, C>) -> bool { matches!(self.0[pool::cs_index(meta)], b'a' | b't') }
+    fn max_level_hint(&self) -> Option<LevelFilter> { self.1 }
+}
+fn mk_reloadable(id: usize, spec: &str) -> Dispatch {
+    use tracing_subscriber::subscribe::CollectExt;
+    let (v, h) = parse_spec(spec);
+    let (layer, handle) = tracing_subscriber::reload::Subscriber::new(SpecLayer(v, h));
+    RHANDLES.lock().unwrap().get_or_insert_with(HashMap::new).insert(id, handle);
+    Dispatch::new(Base { id }.with(layer))
 }
 
 fn parse_spec(spec: &str) -> (Vec<u8>, Option<LevelFilter>) {
@@ -106,6 +153,18 @@ fn run_thread(t: usize, prog: Vec<Vec<String>>, dflt: Option<Dispatch>, handles:
                     let d = Dispatch::new(mk(c, &op[2]));
                     handles.lock().unwrap().insert(c, d);
                 }
+                "newr" => {
+                    let c: usize = op[1].parse().unwrap();
+                    let d = mk_reloadable(c, &op[2]);
+                    handles.lock().unwrap().insert(c, d);
+                }
+                "rl" => {
+                    // the real thing: lock, assign, unlock (yield point `modify:unlocked`), rebuild the interest cache
+                    let c: usize = op[1].parse().unwrap();
+                    let h = RHANDLES.lock().unwrap().as_ref().unwrap().get(&c).expect("reloadable collector").clone();
+                    let (v, hint) = parse_spec(&op[2]);
+                    let _ = h.reload(SpecLayer(v, hint));
+                }
                 "drop" => {
                     let c: usize = op[1].parse().unwrap();
                     let d = handles.lock().unwrap().remove(&c);
@@ -152,7 +211,8 @@ fn main() {
     assert_eq!(parts[0][0], "pre:");
     for op in parse_ops(&parts[0][1..]) {
         let c: usize = op[1].parse().unwrap();
-        handles.lock().unwrap().insert(c, Dispatch::new(mk(c, &op[2])));
+        let d = if op[0] == "newr" { mk_reloadable(c, &op[2]) } else { Dispatch::new(mk(c, &op[2])) };
+        handles.lock().unwrap().insert(c, d);
     }
     let n = parts.len() - 1;
     *SCHED.lock().unwrap() = Some(Sched { granted: None, at_yield: vec![false; n], finished: vec![false; n], log: Vec::new() });
